@@ -76,5 +76,8 @@ using SignalPool = std::vector<std::unique_ptr<boost::asio::cancellation_signal>
 // variant 0 = A (sim::stream), 1 = B (basic_stream_socket specialisation)
 std::unique_ptr<IClient> make_client_A(boost::asio::io_context& ioc, ClientObserver* obs, SignalPool* pool);
 std::unique_ptr<IClient> make_client_B(boost::asio::io_context& ioc, ClientObserver* obs, SignalPool* pool);
+// the reconnect machinery on its own (detail::autoconnect_stream under a minimal reader/writer), same two stream types
+std::unique_ptr<IClient> make_mini_A(boost::asio::io_context& ioc, ClientObserver* obs, SignalPool* pool);
+std::unique_ptr<IClient> make_mini_B(boost::asio::io_context& ioc, ClientObserver* obs, SignalPool* pool);
 
 } // namespace app
